@@ -374,9 +374,9 @@ func perturb(r *hlib.Rand, k *kase, tl []pkt, pf profile) ([]pkt, []string) {
 			if c.v6() {
 				continue
 			}
-			// not 47 (GRE): gopacket's GRE decoder panics on a garbage header and fq's packet() calls it without
-			// recover for a REASSEMBLED datagram — fq crashes (reported; replays/C19/finding-reassembled-gre-panic.json)
-			protos := []int{17, 1, 50, 132, 115, 103, 88, 253, 6, 17, 1, 0xff, 2}
+			// with and without a decoder in gopacket; 47 (GRE), 89 (OSPF), 51 (AH), 112 (VRRP), 58, 132, 2 have decoders
+			// that are fed garbage here (the GRE one panics on it: fixed finding reassembled-ipv4-upper-layer-panic)
+			protos := []int{17, 1, 47, 47, 50, 132, 115, 103, 88, 253, 6, 17, 1, 0xff, 2, 89, 51, 112, 58, 136}
 			proto := protos[r.Intn(len(protos))]
 			n := r.Range(9, 120)
 			if r.Intn(3) == 0 || proto == 6 {
